@@ -399,6 +399,11 @@ pub fn run_case(c: &Case, mode: Mode, rep: &mut Report) -> Vec<Finding> {
                 findings.push(Finding { class: f.class, detail: format!("{}; {}", f.detail, describe(&r)) });
             } else if !ref_dead {
                 for o in 0..sched_out.len() {
+                    // A source that never ends is cut off at an arbitrary point in
+                    // both runs: only the common prefix is comparable.
+                    if n_ins == 0 && (sched_out[o].is_prefix_of(&ref_out[o]) || ref_out[o].is_prefix_of(&sched_out[o])) {
+                        continue;
+                    }
                     if let Some(at) = sched_out[o].first_diff(&ref_out[o]) {
                         findings.push(Finding {
                             class: if sched_out[o].len() != ref_out[o].len() && at >= std::cmp::min(sched_out[o].len(), ref_out[o].len()) {
